@@ -2220,12 +2220,15 @@ class FilePool:
         try:
             yield f
         finally:
-            self._out.remove(f)
-            self._files.append(f)
-            if not self._out:
-                with self._cond:
-                    if self.writers and not self._out:
-                        self._cond.notify_all()
+            # Hand the file back under the lock: a writer that sees _out
+            # empty must also see the file in _files, or it would miss it
+            # when it empties the pool (pack swaps the data file then, and
+            # the stale handle would be reused for reads afterwards).
+            with self._cond:
+                self._out.remove(f)
+                self._files.append(f)
+                if self.writers and not self._out:
+                    self._cond.notify_all()
 
     def empty(self):
         while self._files:
